@@ -771,3 +771,48 @@ def companion_reserve_rule(chk, cid, prog, p, cfgname):
                     'stack.used += ..` under `type == UCOL`): the grown usub[] lies above stack.top1 and is not moved by the next expansion', cfgname=cfgname)
         return 1
     return n
+
+
+def layout_order_rule(chk, cid, prog, p, cfgname):
+    """In a caller workspace the four growable arrays lie back to back in the order LUSUP, UCOL, LSUB, USUB; ?expand relies on it (the block behind
+    the array that grows starts at expanders[type + 1].mem).  ?LUMemInit creates them with four consecutive ?expand calls - once for the first
+    guess and once more in the retry loop: each group of four calls must name the types in exactly that order."""
+    f = prog.func(p + 'LUMemInit')
+    if f is None:
+        raise AnalysisBroken('%sLUMemInit not found' % p)
+    chk.saw(unit=f.unit, func=f.unit + ':' + f.name)
+    want = list(ORDER)
+    n = 0
+    for blk in f.body.walk():
+        if blk.k != 'Block':
+            continue
+        seq = []
+        for st in blk.c:
+            calls = [y for y in st.walk() if y.k == 'Call' and callee_name(y) == p + 'expand']
+            if len(calls) == 1 and len(calls[0].c) >= 3:
+                seq.append((canon(calls[0].c[2], ids=False), calls[0]))
+            elif seq:
+                if len(seq) >= 2:
+                    n += 1
+                    names = [t for (t, _) in seq]
+                    inst = '%s:arrays-created-in-layout-order@%d' % (f.name, n)
+                    if names == want[:len(names)] and len(names) == 4:
+                        chk.ok(cid, inst, sample=' '.join(names))
+                    else:
+                        chk.violate(cid, inst, loc(f, seq[0][1]), f.name,
+                                    'the growable arrays are created in the order %s; ?expand assumes the workspace layout %s (the block to shift starts at '
+                                    'expanders[type + 1].mem): a later in-workspace expansion moves the wrong block and info stays 0' % (' '.join(names), ' '.join(want)),
+                                    cfgname=cfgname)
+                seq = []
+        if len(seq) >= 2:
+            n += 1
+            names = [t for (t, _) in seq]
+            inst = '%s:arrays-created-in-layout-order@%d' % (f.name, n)
+            if names == want:
+                chk.ok(cid, inst, sample=' '.join(names))
+            else:
+                chk.violate(cid, inst, loc(f, seq[0][1]), f.name,
+                            'the growable arrays are created in the order %s; ?expand assumes the workspace layout %s' % (' '.join(names), ' '.join(want)), cfgname=cfgname)
+    if n < 2:
+        raise AnalysisBroken('%s: %d groups of ?expand calls found, expected 2 (first guess, retry)' % (f.name, n))
+    return n
